@@ -178,7 +178,12 @@ func c13Dead(rc *simrt.RunCtx) {
 				who, rc.Now()-tSilence, tk.ping, tk.pong, rAtSilence, n, k, state(k))
 			return
 		}
-		if pn := tr.pending(); pn > 0 {
+		pn := tr.pending()
+		if pn > 0 {
+			time.Sleep(200 * time.Millisecond)
+			pn = tr.pending()
+		}
+		if pn > 0 {
 			rc.Violate("c13.calls-hang", who+"/"+state(k), "%s closed but %d application calls are still blocked %v after the silence began", who, pn, rc.Now()-tSilence)
 			return
 		}
